@@ -27,6 +27,8 @@ CFG = {
         "Leptos.Action.C17_dispose_transparent",
         "Leptos.Action.C17_disposed_no_new_dispatch",
         "Leptos.Action.C17_multi_suppressed_disposed_noop",
+        "Leptos.Action.C17_reentrant_dispatch_in_completion",
+        "Leptos.Action.C17_eager_ready_dispatch",
         "Leptos.Action.runIdle_is_run",
         "Leptos.Action.M.runIdle_is_run",
     ],
@@ -47,10 +49,16 @@ CFG = {
             "around every event (1-3 dispatches, with clear / dispatch_sync), - rotating over ArcAction / Action (new, new_local, new_unsync, "
             "new_unsync_local) / leptos_server ArcServerAction / ServerAction (with and without a ServerActionError context, for the same and for "
             "another path) x dispatch / dispatch_local (mixed within a case) x Ok / Err results, and ArcMultiAction / MultiAction / "
-            "ArcServerMultiAction / ServerMultiAction; "
+            "ArcServerMultiAction / ServerMultiAction; two executors (deferred: spawn queues the task; EAGER: spawn polls it once inline, before "
+            "dispatch() returns) with futures that are already resolved at their first poll (1-3 dispatches, every script and interleaving, with "
+            "disposal / suppression); re-entrant dispatch: ImmediateEffects on version() / value() with budgets (1,0) (0,1) (2,0) (1,1) (0,2) that "
+            "dispatch again from inside the completion step or inside clear, under both executors (1-3 dispatches, every script and "
+            "interleaving, with clear / disposal / suppression), the re-dispatched tasks resolved too; every submission record is read through "
+            "its three views (ArcSubmission, Submission::from, Submission::from_local) and cancelled through a rotating one, arena actions are "
+            "also read through Action::from(server_action) / a copy of the handle; "
             "then n seeded random histories (up to 8 dispatches, up to 4 overlapping). The whole scope is not declared exhaustive "
             "because the random part is sampled. distinct = distinct op sequence; non-trivial = the case has at least one tag other "
-            "than its kind / `plain` (overlap, abort-before-ready, abort-after-ready, race-abort-first, race-ready-first, drop-handle, suppressed-dispatch, dispose-*, dispatch-after-dispose, clear-after-dispose, dispatch-local,  clear*, out-of-order, "
+            "than its kind / `plain` (overlap, abort-before-ready, abort-after-ready, race-abort-first, race-ready-first, drop-handle, eager-spawn, ready-at-first-poll, reentrant-on-version, reentrant-on-value, suppressed-dispatch, dispose-*, dispatch-after-dispose, clear-after-dispose, dispatch-local,  clear*, out-of-order, "
             "cancel*, dsync, multi)",
     "trusted": [
         "futures-channel oneshot (Sender::send / drop wake the receiver's task; a receiver whose sender was dropped without a value "
@@ -58,7 +66,8 @@ CFG = {
         "validated by the differential run; a regression to the unbiased select! is detected by the harness's own future "
         "(it completes although the abort arm was ready) on the corpus cases abort-first-<kind> and every exhaustive race case",
         "reactive_graph signals (ArcRwSignal update/get_untracked, Memo over in_flight) and the arena (ArenaItem) - exercised, not modelled beyond read/write",
-        "hx_common::sched (the controlled executor) and any_spawner's custom-executor hook",
+        "hx-c17's esched.rs (copy of hx_common::sched, the controlled executor, plus the eager mode) and any_spawner's custom-executor hook",
+        "reactive_graph ImmediateEffect (runs synchronously inside the signal write it observes) - used as the synchronous observer, not modelled beyond that",
     ],
     "modelled": ["ArcAction::dispatch / dispatch_local (identical bodies; both used, also mixed on one action), ActionAbortHandle::abort / drop, "
                  "ArcAction::clear, pending/version/value/input; is_suppressing_resource_load() (dispatch is a no-op)",
@@ -69,7 +78,12 @@ CFG = {
                  "leptos_server ArcServerAction / ServerAction / ArcServerMultiAction / ServerMultiAction driven through a hand-made ServerFn and a "
                  "staged Client (the request completes when the harness says so, with Ok or a ServerFnError in its wire encoding): Deref "
                  "forwarding, run_on_client as the action function, initial value from a ServerActionError context (decode_err) - same model",
-                 "NOT covered: disposal of the observers' own owner (nothing is left to observe); the server half of the server function "
+                 "executor kinds: deferred and eager spawn; futures resolved before their first poll; re-entrant dispatch from synchronous observers "
+                 "of version()/value() inside the completion step (atomic w.r.t. in_flight: one update before the observers run) and inside clear",
+                 "every view of a submission (ArcSubmission, Submission<SyncStorage> via From, Submission<LocalStorage> via FromLocal): read and cancel; "
+                 "Action::from(ServerAction). There is no Action::from(ArcAction) / into_arc at this commit",
+                 "NOT covered: observers of pending() (a Memo) and RenderEffect/Effect observers (they run as executor tasks, not synchronously); "
+                 "two threads polling at once (C19's domain); disposal of the observers' own owner (nothing is left to observe); the server half of the server function "
                  "(C13); ServerActionError produced by a real integration (the harness builds it with ServerFnUrlError::to_url)"],
     "assumptions": ["one thread; the dispatched futures have no side effects other than producing their value",
                     "`dispatched` is never written by the code (is_latest is always true) - the model keeps the field and proves it irrelevant"],
